@@ -3,8 +3,8 @@
 
 roles (functions of the un-inlined hash unit)
   checked lookup   calls through a hash-function pointer and indexes bucket.at with the result
-  cleaner          stores a bucket's `cst` through a bucket pointer it received AND re-links nodes
-                   through the checked lookup
+  cleaner          reads or writes a bucket's `cst` through a bucket pointer it received AND re-links
+                   nodes through the checked lookup
   sweep            advances bucket.rh.clean (stores rh.clean + 1)
   pending-aware lookup   calls the checked lookup with both (bucket.hash, bucket.count) and
                    (rh.hash, rh.count)
@@ -115,8 +115,8 @@ class Roles:
             # stores `cst` of a bucket reached through a pointer parameter
             st_cst = []
             for s in f.all_insts():
-                if s.op == 'store':
-                    a = resolve_addr(f, s.o[1])
+                if s.op in ('store', 'load'):
+                    a = resolve_addr(f, s.o[1] if s.op == 'store' else s.o[0])
                     if a.fsteps[-1:] == (('cstl_hash_bucket', 'cst'),) and isinstance(a.root, str) and a.root.startswith('$'):
                         st_cst.append(s)
             if st_cst and calls_checked:
